@@ -148,59 +148,51 @@ impl PublicKey {
 
     /// Convert a byte sequence into the public key
     pub fn from_bytes<B: AsRef<[u8]>>(bytes: B) -> Option<Self> {
-        const SIZE: usize = 48;
-        // Length for w, x, and 1 y in g1 and 1 y in g2
-        const MIN_SIZE: usize = SIZE * 5 + 8;
+        const G1_SIZE: usize = 48;
+        const G2_SIZE: usize = 96;
 
-        let buffer = bytes.as_ref();
-        if buffer.len() < MIN_SIZE {
-            return None;
+        fn take<'a>(rest: &mut &'a [u8], n: usize) -> Option<&'a [u8]> {
+            if rest.len() < n {
+                return None;
+            }
+            let (head, tail) = rest.split_at(n);
+            *rest = tail;
+            Some(head)
         }
-
-        fn from_be_bytes(d: &[u8]) -> G2Projective {
+        fn g2(d: &[u8]) -> Option<G2Projective> {
             let mut tv = <G2Projective as GroupEncoding>::Repr::default();
             tv.as_mut().copy_from_slice(d);
-            G2Projective::from_bytes(&tv).unwrap()
+            Option::from(G2Projective::from_bytes(&tv))
         }
-
-        let mut offset = 0;
-        let mut end = SIZE;
-        let w = from_be_bytes(&buffer[offset..end]);
-        offset = end;
-        end += SIZE;
-
-        let x = from_be_bytes(&buffer[offset..end]);
-        offset = end;
-        end += 4;
-
-        let y_cnt = u32::from_be_bytes(<[u8; 4]>::try_from(&buffer[offset..end]).unwrap()) as usize;
-        offset = end;
-        end += SIZE * 2;
-
-        let mut y = Vec::new();
-
-        for _ in 0..y_cnt {
-            y.push(from_be_bytes(&buffer[offset..end]));
-            offset = end;
-            end += SIZE * 2;
-        }
-
-        offset = end;
-        end += 4;
-
-        let mut y_blinds = Vec::new();
-        let y_blind_cnt =
-            u32::from_be_bytes(<[u8; 4]>::try_from(&buffer[offset..end]).unwrap()) as usize;
-
-        offset = end;
-        end += SIZE;
-
-        for _ in 0..y_blind_cnt {
+        fn g1(d: &[u8]) -> Option<G1Projective> {
             let mut tv = <G1Projective as GroupEncoding>::Repr::default();
-            tv.as_mut().copy_from_slice(&buffer[offset..end]);
-            y_blinds.push(G1Projective::from_bytes(&tv).unwrap());
-            offset = end;
-            end += SIZE;
+            tv.as_mut().copy_from_slice(d);
+            Option::from(G1Projective::from_bytes(&tv))
+        }
+        fn count(rest: &mut &[u8], size: usize) -> Option<usize> {
+            let n = u32::from_be_bytes(<[u8; 4]>::try_from(take(rest, 4)?).ok()?) as usize;
+            // every element needs `size` bytes: bound the count by what is left
+            if n > rest.len() / size {
+                return None;
+            }
+            Some(n)
+        }
+
+        let mut rest = bytes.as_ref();
+        let w = g2(take(&mut rest, G2_SIZE)?)?;
+        let x = g2(take(&mut rest, G2_SIZE)?)?;
+        let y_cnt = count(&mut rest, G2_SIZE)?;
+        let mut y = Vec::with_capacity(y_cnt);
+        for _ in 0..y_cnt {
+            y.push(g2(take(&mut rest, G2_SIZE)?)?);
+        }
+        let y_blind_cnt = count(&mut rest, G1_SIZE)?;
+        let mut y_blinds = Vec::with_capacity(y_blind_cnt);
+        for _ in 0..y_blind_cnt {
+            y_blinds.push(g1(take(&mut rest, G1_SIZE)?)?);
+        }
+        if !rest.is_empty() {
+            return None;
         }
         Some(Self { w, x, y, y_blinds })
     }
